@@ -6,7 +6,7 @@
    where t q = lookup q (tops t) (None = identity) and sigma_X, sigma_Y, sigma_Z, sigma_I are the 2x2 Pauli
    matrices as functions of a row bit and a column bit.  Operators on qubits >= n are ignored, theorems
    therefore ask for [term_fits n t] where it matters.
-   [dmat] is the same matrix as an explicit Kronecker chain over the dense string (DenProofs.den_dmat). *)
+   [dmat] is the same matrix as an explicit Kronecker chain over the dense string (DenProofs.pprod_dmat). *)
 Require Import Coq.Lists.List Coq.Arith.Arith Coq.Bool.Bool.
 Require Import OQ.Base.Ring OQ.Base.Sums OQ.Base.Bits OQ.Base.Mat OQ.Pauli.Algebra.
 Import ListNotations.
